@@ -26,7 +26,7 @@ def impl_consts(cls, dt, small):
     c = {
         'Kind': cls.kind, 'DT': dt, 'DataN': '<- DataN2',
         'NfftArgs': set(cls.nffts[:2] if small else cls.nffts) | ({33} if small and cls.name not in ('pmusic', 'pev') else set()),
-        'Samplings': {1024, 2048} if small else {1024, 2048, 512},
+        'Samplings': {D.S1, D.S1N} if small else {D.S1, D.S2, D.SH, D.S1N},
         'Windows': set(cls.windows) if cls.kind == 'fourier' else {'na'},
         'Lags': set(cls.lags[:1] if small and cls.kind == 'fourier' else cls.lags) if (cls.kind == 'fourier' or cls.name == 'parma') else {0},
         'Detrends': set(cls.detrends[:1] if small else cls.detrends) if cls.kind == 'fourier' else {'na'},
@@ -36,9 +36,9 @@ def impl_consts(cls, dt, small):
     }
     if small and cls.name == 'parma':
         # the quick tier concentrates on what only this class has (ma order, lag)
-        c.update({'NfftArgs': {0}, 'Samplings': {1024}, 'ArOrders': {2}, 'MaOrders': set(cls.ma)})
+        c.update({'NfftArgs': {0}, 'Samplings': {D.S1}, 'ArOrders': {2}, 'MaOrders': set(cls.ma)})
     if small and cls.name == 'MultiTapering':
-        c.update({'NfftArgs': {0, 33}, 'Samplings': {1024, 2048}})
+        c.update({'NfftArgs': {0, 33}, 'Samplings': {D.S1, D.S1N}})
     return c
 
 
@@ -263,7 +263,7 @@ def random_ops(cls, dt, rng):
             ops.append(('SetData', {'data': d, 'N': D.token_len(ddt, d), 'dt': ddt}))
     for x in cls.nffts:
         ops.append(('SetNFFT', x))
-    for v in (1024, 2048, 512):
+    for v in (D.S1, D.S2, D.SH, D.S1N):
         ops.append(('SetSampling', v))
     for s in ['onesided', 'twosided', 'centerdc', 'default']:
         ops.append(('SetSides', s))
@@ -286,7 +286,7 @@ def random_ops(cls, dt, rng):
 
 def initial_attrs(cls, dt, rng):
     N = D.DATA_N[0]
-    return {'dt': dt, 'data': 1, 'nfft': D.resolve_nfft(rng.choice(cls.nffts), N), 'samp': rng.choice((1024, 2048)),
+    return {'dt': dt, 'data': 1, 'nfft': D.resolve_nfft(rng.choice(cls.nffts), N), 'samp': rng.choice((D.S1, D.S2)),
             'scale': rng.choice((True, False)), 'detrend': rng.choice(cls.detrends), 'window': rng.choice(cls.windows),
             'lag': rng.choice(cls.lags), 'ar': rng.choice(cls.ar), 'ma': rng.choice(cls.ma)}
 
@@ -300,7 +300,8 @@ def directed_scripts(cls, dt):
     rd = ['ReadPsd', 0]
     s = [[rd, ['SetData', same_values], rd, ['SetData', back], rd],
          [rd, ['SetNFFT', 0], rd, ['SetSides', 'centerdc'], ['SetNFFT', 0], rd, ['SetNFFT', 1], ['SetSides', 'centerdc'], ['SetNFFT', 1], rd],
-         [rd, ['SetSampling', 2048], rd, ['SetSampling', 2048], rd, ['SetScale', True], rd, ['SetScale', True], rd],
+         [rd, ['SetSampling', D.S2], rd, ['SetSampling', D.S2], rd, ['SetScale', True], rd, ['SetScale', True], rd],
+         [rd, ['SetSampling', D.S1], rd, ['SetSampling', D.S1N], rd, ['SetScale', True], rd, ['SetSampling', D.S1], rd, ['SetSampling', D.S1N], ['GetConverted', 'centerdc']],
          [rd, ['SetNFFT', 33], ['GetConverted', 'twosided'], ['SetNFFT', 24], ['GetConverted', 'onesided' if dt == 'real' else 'twosided'],
           ['SetData', {'data': 2, 'N': D.token_len(dt, 2), 'dt': dt}], ['GetConverted', 'centerdc'], rd]]
     if cls.kind == 'parametric':
@@ -494,7 +495,7 @@ def refusal_is_persistent(chk):
     for name in sorted(D.CLASSES):
         cls = D.CLASSES[name]
         for dt in ('real', 'complex'):
-            at = {'dt': dt, 'data': 1, 'nfft': D.resolve_nfft(cls.nffts[-1], D.DATA_N[0]), 'samp': 1024, 'scale': False,
+            at = {'dt': dt, 'data': 1, 'nfft': D.resolve_nfft(cls.nffts[-1], D.DATA_N[0]), 'samp': D.S1, 'scale': False,
                   'detrend': cls.detrends[0], 'window': cls.windows[0], 'lag': cls.lags[0], 'ar': cls.ar[0], 'ma': cls.ma[0]}
             N = D.DATA_N[0]
             cands = [('NFFT', 2)]
